@@ -22,7 +22,10 @@ Init == bst = [trans |-> <<>>, dflt |-> <<>>, fin |-> <<>>, order |-> <<>>] /\ c
 Adds(s) == Len(bst.trans[s])
 
 Next ==
-  \/ /\ phase = "new" /\ BNew(0) /\ Call([op |-> "new", s |-> 0, t |-> 0, lo |-> 0, hi |-> 0]) /\ phase' = "s0"
+  \/ /\ phase = "new" /\ BNew(0) /\ Call([op |-> "new", s |-> 0, t |-> 0, lo |-> 0, hi |-> 0]) /\ phase' = "s0pre"
+  \* a default may be declared BEFORE the transitions of the state (and again after them)
+  \/ /\ phase = "s0pre" /\ BDef(0, 1) /\ Call([op |-> "def", s |-> 0, t |-> 1, lo |-> 0, hi |-> 0]) /\ phase' = "s0"
+  \/ /\ phase = "s0pre" /\ UNCHANGED <<bst, calls>> /\ phase' = "s0"
   \* state 0: transitions (any label, target 0/1/2), defaults, final flag
   \/ /\ phase = "s0" /\ Adds(0) < MaxAdd0
      /\ \E c \in Labels, t \in 0..1 : BAdd(0, c, t) /\ Call([op |-> "add", s |-> 0, t |-> t, lo |-> c[1], hi |-> c[2]])
